@@ -56,10 +56,16 @@ enum Mode {
     Events,
     Handler,
     Forward(Option<usize>),
+    /// events -> with_error_handler -> forward_to (the assembly of `SystemBuilder` / the examples)
+    HFwd(Option<usize>),
+    /// TWO pipelines (own script, own policy) live on one runtime, merged by the real `merge()`;
+    /// `true` = both carry the same `StreamKey` and origin (two subscription batches of one exchange)
+    Duo(bool),
 }
 
 type Inner = BoxStream<'static, Result<u64, ScriptErr>>;
 type Ev = Event<ExchangeId, Result<u64, ScriptErr>>;
+type EvH = Event<ExchangeId, u64>;
 
 fn parse_conn(toks: &[String]) -> Conn {
     match toks[0].as_str() {
@@ -112,6 +118,10 @@ fn inner_stream(elems: Vec<Elem>, hang: bool) -> Inner {
 struct Log {
     lines: Arc<Mutex<Vec<String>>>,
     start: tokio::time::Instant,
+    /// key of the event lines (`ev`; `bev` for the second pipeline of `mode duo`)
+    key: &'static str,
+    /// the origin this pipeline was assembled with: a notice must carry it
+    origin: ExchangeId,
 }
 
 impl Log {
@@ -123,11 +133,25 @@ impl Log {
     }
     fn event(&self, ev: &Ev) {
         let t = self.t();
+        let k = self.key;
         self.push(match ev {
-            Event::Reconnecting(_) => format!("ev notice {t}"),
-            Event::Item(Ok(x)) => format!("ev item {x} {t}"),
-            Event::Item(Err(e)) => format!("ev err {} {t}", e.id),
+            Event::Reconnecting(o) if *o != self.origin => format!("{k} notice-foreign-origin {t}"),
+            Event::Reconnecting(_) => format!("{k} notice {t}"),
+            Event::Item(Ok(x)) => format!("{k} item {x} {t}"),
+            Event::Item(Err(e)) => format!("{k} err {} {t}", e.id),
         });
+    }
+    fn event_h(&self, ev: &EvH) {
+        let t = self.t();
+        let k = self.key;
+        self.push(match ev {
+            Event::Reconnecting(o) if *o != self.origin => format!("{k} notice-foreign-origin {t}"),
+            Event::Reconnecting(_) => format!("{k} notice {t}"),
+            Event::Item(x) => format!("{k} item {x} {t}"),
+        });
+    }
+    fn att(&self) {
+        self.push(format!("{} att {}", self.key, self.t()));
     }
 }
 
@@ -136,22 +160,35 @@ impl Log {
 /// A `Tx` over the real `UnboundedTx`: the receiving side takes every item as it arrives, and is
 /// dropped once it has taken `cap` items, so that the next `send` fails as it does in production when
 /// the consumer is gone.
-#[derive(Clone)]
-struct ScriptTx {
-    tx: UnboundedTx<Ev>,
-    rx: Arc<Mutex<Option<UnboundedRx<Ev>>>>,
+struct ScriptTx<T = Ev> {
+    tx: UnboundedTx<T>,
+    rx: Arc<Mutex<Option<UnboundedRx<T>>>>,
     cap: Option<usize>,
     taken: Arc<Mutex<usize>>,
     log: Log,
+    show: fn(&Log, &T),
 }
 
-impl std::fmt::Debug for ScriptTx {
+impl<T> Clone for ScriptTx<T> {
+    fn clone(&self) -> Self {
+        ScriptTx {
+            tx: UnboundedTx::new(self.tx.tx.clone()),
+            rx: self.rx.clone(),
+            cap: self.cap,
+            taken: self.taken.clone(),
+            log: self.log.clone(),
+            show: self.show,
+        }
+    }
+}
+
+impl<T> std::fmt::Debug for ScriptTx<T> {
     fn fmt(&self, f: &mut std::fmt::Formatter<'_>) -> std::fmt::Result {
         write!(f, "ScriptTx")
     }
 }
 
-impl ScriptTx {
+impl<T> ScriptTx<T> {
     fn close_if_full(&self) {
         if Some(*self.taken.lock().unwrap()) == self.cap {
             *self.rx.lock().unwrap() = None;
@@ -159,9 +196,9 @@ impl ScriptTx {
     }
 }
 
-impl Tx for ScriptTx {
-    type Item = Ev;
-    type Error = tokio::sync::mpsc::error::SendError<Ev>;
+impl<T: std::fmt::Debug + Clone + Send> Tx for ScriptTx<T> {
+    type Item = T;
+    type Error = tokio::sync::mpsc::error::SendError<T>;
 
     fn send<Item: Into<Self::Item>>(&self, item: Item) -> Result<(), Self::Error> {
         let res = self.tx.send(item);
@@ -169,7 +206,7 @@ impl Tx for ScriptTx {
             let mut guard = self.rx.lock().unwrap();
             if let Some(rx) = guard.as_mut() {
                 while let Ok(ev) = rx.rx.try_recv() {
-                    self.log.event(&ev);
+                    (self.show)(&self.log, &ev);
                     *self.taken.lock().unwrap() += 1;
                 }
             }
@@ -194,6 +231,8 @@ fn run_script(policy: &ReconnectionBackoffPolicy, mode: Mode, script: &[Conn]) -
         let log = Log {
             lines: Arc::new(Mutex::new(vec![])),
             start: tokio::time::Instant::now(),
+            key: "ev",
+            origin: ExchangeId::BinanceSpot,
         };
         let initialised = Arc::new(Mutex::new(false));
 
@@ -266,11 +305,31 @@ fn run_script(policy: &ReconnectionBackoffPolicy, mode: Mode, script: &[Conn]) -
                             cap,
                             taken: Arc::new(Mutex::new(0)),
                             log: log.clone(),
+                            show: Log::event,
                         };
                         tx.close_if_full();
                         stream.forward_to(tx).await;
                         "ended"
                     }
+                    Mode::HFwd(cap) => {
+                        let hlog = log.clone();
+                        let stream = stream.with_error_handler(move |e: ScriptErr| {
+                            hlog.push(format!("ev handled {} {}", e.id, hlog.t()));
+                        });
+                        let (tx, rx) = mpsc_unbounded::<EvH>();
+                        let tx = ScriptTx {
+                            tx,
+                            rx: Arc::new(Mutex::new(Some(rx))),
+                            cap,
+                            taken: Arc::new(Mutex::new(0)),
+                            log: log.clone(),
+                            show: Log::event_h,
+                        };
+                        tx.close_if_full();
+                        stream.forward_to(tx).await;
+                        "ended"
+                    }
+                    Mode::Duo(_) => unreachable!("mode duo runs in run_duo"),
                 }
             }
         };
@@ -293,6 +352,122 @@ fn run_script(policy: &ReconnectionBackoffPolicy, mode: Mode, script: &[Conn]) -
         lines.push(format!("evn {evn}"));
         lines.push(format!("fin {fin}"));
         lines
+    })
+}
+
+
+// ------------------------------------------------------------------------------- two live pipelines
+
+fn scripted_init(
+    script: &[Conn],
+    log: Log,
+) -> impl Fn() -> futures::future::BoxFuture<'static, Result<Inner, ()>> + Send + 'static {
+    let script: Arc<Mutex<VecDeque<Conn>>> = Arc::new(Mutex::new(script.iter().cloned().collect()));
+    move || {
+        let next = script.lock().unwrap().pop_front();
+        let log = log.clone();
+        Box::pin(async move {
+            match next {
+                None => {
+                    futures::future::pending::<()>().await;
+                    unreachable!()
+                }
+                Some(Conn::Fail) => {
+                    log.att();
+                    Err(())
+                }
+                Some(Conn::Ok(elems, hang)) => {
+                    log.att();
+                    Ok(inner_stream(elems, hang))
+                }
+            }
+        })
+    }
+}
+
+/// One side of `mode duo`: the production assembly (init + back-off + termination + events) as a stream that
+/// first initialises; a failed first init leaves the side silent for ever (so that it does not end the merge).
+fn duo_side(
+    policy: ReconnectionBackoffPolicy,
+    key: StreamKey,
+    script: &[Conn],
+    log: Log,
+    status: Arc<Mutex<&'static str>>,
+    tag: bool,
+) -> BoxStream<'static, (bool, Ev)> {
+    let init = scripted_init(script, log.clone());
+    let origin = log.origin;
+    futures::stream::once(async move {
+        match init_reconnecting_stream(init).await {
+            Ok(s) => {
+                *status.lock().unwrap() = "pending";
+                Some(
+                    s.with_reconnect_backoff(policy, key)
+                        .with_termination_on_error(|e: &ScriptErr| e.terminal, key)
+                        .with_reconnection_events(origin),
+                )
+            }
+            Err(()) => {
+                *status.lock().unwrap() = "init-error";
+                None
+            }
+        }
+    })
+    .filter_map(std::future::ready)
+    .flatten()
+    .chain(futures::stream::pending())
+    .map(move |ev| (tag, ev))
+    .boxed()
+}
+
+/// Both pipelines live at once on ONE paused-clock runtime, merged by the real `merge()` and consumed by one
+/// loop. Neither side ever ends, so each side's trace must be exactly what it is when run alone.
+fn run_duo(
+    pa: &ReconnectionBackoffPolicy,
+    sa: &[Conn],
+    pb: &ReconnectionBackoffPolicy,
+    sb: &[Conn],
+    same: bool,
+) -> Vec<String> {
+    let rt = tokio::runtime::Builder::new_current_thread()
+        .enable_time()
+        .start_paused(true)
+        .build()
+        .unwrap();
+    let (pa, pb, sa, sb) = (pa.clone(), pb.clone(), sa.to_vec(), sb.to_vec());
+    rt.block_on(async move {
+        let lines = Arc::new(Mutex::new(vec![]));
+        let start = tokio::time::Instant::now();
+        let (oa, ob) = (
+            ExchangeId::BinanceSpot,
+            if same { ExchangeId::BinanceSpot } else { ExchangeId::Kraken },
+        );
+        let la = Log { lines: lines.clone(), start, key: "ev", origin: oa };
+        let lb = Log { lines: lines.clone(), start, key: "bev", origin: ob };
+        // the keys `init_market_stream` builds: equal for two subscription batches of one exchange and kind
+        let ka = StreamKey::new("market_stream", oa, Some("public_trades"));
+        let kb = StreamKey::new("market_stream", ob, Some("public_trades"));
+        let (fa, fb) = (Arc::new(Mutex::new("init-pending")), Arc::new(Mutex::new("init-pending")));
+        let a = duo_side(pa, ka, &sa, la.clone(), fa.clone(), true);
+        let b = duo_side(pb, kb, &sb, lb.clone(), fb.clone(), false);
+        let fut = async {
+            let mut merged = Box::pin(merge(a, b));
+            while let Some((left, ev)) = merged.next().await {
+                if left { la.event(&ev) } else { lb.event(&ev) }
+            }
+        };
+        let ended = tokio::time::timeout(Duration::from_secs(100_000_000), fut).await.is_ok();
+        let all = lines.lock().unwrap().clone();
+        let mut out = vec![];
+        for (key, fin) in [("ev", fa), ("bev", fb)] {
+            let mine: Vec<String> = all.iter().filter(|l| l.starts_with(&format!("{key} "))).cloned().collect();
+            let n = mine.len();
+            out.extend(mine);
+            out.push(format!("{key}n {n}"));
+            let fin = if ended { "ended" } else { *fin.lock().unwrap() };
+            out.push(format!("{}fin {fin}", &key[..key.len() - 2]));
+        }
+        out
     })
 }
 
@@ -333,6 +508,8 @@ fn run() {
         let mut policy = ReconnectionBackoffPolicy::new(125, 2, 60000);
         let mut mode = Mode::Events;
         let mut script: Vec<Conn> = vec![];
+        let mut bpolicy = ReconnectionBackoffPolicy::new(125, 2, 60000);
+        let mut bscript: Vec<Conn> = vec![];
         let mut rig: Option<MergeRig> = None;
         for op in &case.ops {
             lines.push("@".into());
@@ -353,12 +530,35 @@ fn run() {
                         } else {
                             Some(op[2].parse().unwrap())
                         }),
+                        "hfwd" => Mode::HFwd(if op[2] == "inf" {
+                            None
+                        } else {
+                            Some(op[2].parse().unwrap())
+                        }),
+                        "duo" => Mode::Duo(match op[2].as_str() {
+                            "same" => true,
+                            "diff" => false,
+                            other => panic!("bad duo {other}"),
+                        }),
                         other => panic!("bad mode {other}"),
                     }
                 }
+                "bpolicy" => {
+                    bpolicy = ReconnectionBackoffPolicy::new(
+                        op[1].parse().unwrap(),
+                        op[2].parse().unwrap(),
+                        op[3].parse().unwrap(),
+                    );
+                }
+                "bconn" => {
+                    bscript.push(parse_conn(&op[1..]));
+                }
                 "conn" => {
                     script.push(parse_conn(&op[1..]));
-                    lines.extend(run_script(&policy, mode, &script));
+                    match mode {
+                        Mode::Duo(same) => lines.extend(run_duo(&policy, &script, &bpolicy, &bscript, same)),
+                        _ => lines.extend(run_script(&policy, mode, &script)),
+                    }
                 }
                 "l" | "r" => {
                     let rig = rig.get_or_insert_with(MergeRig::new);
@@ -553,7 +753,59 @@ fn generate(seed: u64, n_cases: usize, tier: &str) {
         }
     }
     gen_domain_families(seed, n_cases, thorough, &mut id, &mut out);
+    gen_cfg_families(seed, n_cases, thorough, &mut id, &mut out);
     out.flush();
+}
+
+// ------------------------------------------------------------- set-up shape families (configuration audit)
+//
+// Separately seeded, appended AFTER everything else. Assemblies a user of the API builds and the cases above
+// never do: `cfgduo` - TWO reconnecting pipelines alive at once on one runtime (own script, own policy; equal
+// or different `StreamKey` / origin), merged by the real `merge()` as `ExecutionManager::init` and the
+// multi-exchange builders do; `cfghfwd` - events -> with_error_handler -> forward_to, the assembly of
+// `SystemBuilder` and of every example (handler and forward_to were only ever run one at a time).
+fn gen_cfg_families(seed: u64, n_cases: usize, thorough: bool, id: &mut usize, out: &mut Out) {
+    let mut rng = Rng::new(seed ^ 0xCF6_0C12_5E7_0B5);
+    let n_extra = if thorough { n_cases / 12 } else { std::cmp::max(36, n_cases / 8) };
+    for k in 0..n_extra {
+        *id += 1;
+        if k % 3 == 2 {
+            out.case(format!("cfghfwd{id}"));
+            out.line(gen_policy(&mut rng));
+            out.line(if rng.chance(30) {
+                "mode hfwd inf".to_string()
+            } else {
+                format!("mode hfwd {}", rng.below(8))
+            });
+            let n_conn = rng.range(1, if thorough { 10 } else { 7 });
+            let fail_pct = *rng.pick(&[20u64, 50]);
+            out.line(gen_conn(&mut rng, 5, 5, 15, 5));
+            for _ in 1..n_conn {
+                out.line(gen_conn(&mut rng, fail_pct, 5, 15, 5));
+            }
+            continue;
+        }
+        out.case(format!("cfgduo{id}"));
+        out.line(gen_policy(&mut rng));
+        out.line(format!("b{}", gen_policy(&mut rng)));
+        out.line(if rng.chance(60) { "mode duo same" } else { "mode duo diff" });
+        let fail_pct = *rng.pick(&[30u64, 50, 75]);
+        let terminal_pct = *rng.pick(&[0u64, 10, 30]);
+        // the second pipeline first (mostly alive), then both scripts grow in a drawn interleaving
+        if !rng.chance(10) {
+            out.line(format!("b{}", gen_conn(&mut rng, 8, 4, terminal_pct, 5)));
+        }
+        out.line(gen_conn(&mut rng, 8, 4, terminal_pct, 5));
+        let steps = rng.range(2, if thorough { 12 } else { 8 });
+        for _ in 0..steps {
+            if rng.chance(50) {
+                out.line(format!("b{}", gen_conn(&mut rng, fail_pct, 4, terminal_pct, 5)));
+            } else {
+                out.line(gen_conn(&mut rng, fail_pct, 4, terminal_pct, 5));
+            }
+        }
+        out.line(gen_conn(&mut rng, fail_pct, 4, terminal_pct, 10));
+    }
 }
 
 // ------------------------------------------------------------- input-domain families (domain audit)
